@@ -68,6 +68,7 @@ func c05(p *core.Program, r *core.Report) {
 	r.Rule("R3", "live/replay mutator agreement: for each op type, the direct mutator the live API applies when it logs that op is the one op.apply runs on replay; replayed roaring ops pass log=false and the clear flag of their type")
 	r.Rule("R4", "log what changed: a batch op's values are the mutated slice truncated by the direct mutator's own changed count; a roaring op's opN is the accumulated changed count")
 	r.Rule("R5", "counter plumbing: writeOp and the replay loop both add op.count() to opN and 1 to ops per op")
+	r.Rule("R6", "the decoder accepts what the writer logs: in op.UnmarshalBinary no condition reads op.value on a path where the type can still be opTypeAdd or opTypeRemove (there the slot is a bit position and every uint64 is valid); the set of possible types is tracked through tests of op.typ and switch cases")
 	r.NotDecided = "history-dependent equivalence of snapshot+log replay with the live bitmap for all interleavings; checksum arithmetic"
 	rp := p.Pkg("roaring")
 	if rp == nil {
@@ -150,6 +151,7 @@ func c05(p *core.Program, r *core.Report) {
 
 	// ---- R3
 	c05Replay(p, r, rp, consts)
+	c05SingleValueFree(p, r, rp, consts)
 
 	// ---- R4
 	for _, name := range []string{"AddN", "RemoveN"} {
